@@ -16,6 +16,9 @@ A *case* is a history over two registry instances and up to three threads:
     ("event", t, kind, hp)  an event; layer 1 records lookup_current / event_span / event_scope / a dump of every span
     ("read", t, h)          SpanTrace::with_spans / span(id).scope() through the handle's own dispatch
     ("pdrop", t, h)         the handle is dropped while a (contained) panic unwinds          (model: drop)
+    ("fdrop", t, h)         the handle is dropped and the OUTERMOST layer's on_close panics for that span (contained): every
+                            other layer was notified, the unwinding drops the closing outermost CloseGuard, which clears the
+                            slot and releases the parent                                      (model: drop)
     ("hold", t, k, h) ("poke", t, k) ("release", t, k)
     ("peek", t, k)          keep a SpanRef (slab guard) obtained by `registry.span(&id)` across other operations, write an
                             extension (Note) through it, read it back, drop it ("guards" mode).  Model: OHold_ / OPoke /
@@ -53,7 +56,10 @@ ASSUMPTIONS_C05 = [
     "interleavings INSIDE calls (fetch_add / fetch_sub / clear) are covered by the theorems of Registry/Micro.v, tied to the "
     "real code by the H3 forced-schedule runs only when hooks/H3_registry.patch is applied",
     "Release/Acquire on ref_count is treated as sequentially consistent",
-    "per-layer filters (FilterMap) are not modelled (C07)"]
+    "per-layer filters: one LevelFilter-filtered recording layer (outermost) is modelled (FilterMap bit per span); the filter "
+    "machinery itself (FilterState protocol, several filters, interest caching) is C07's subject",
+    "slab guards: a SpanRef kept across operations is modelled at op level (limbo, parked parent reference, notes); the transient "
+    "guards inside try_close are in Registry/MicroReal.v (schedule leg)"]
 ASSUMPTIONS_C06 = [
     "OwnDefault for the readability clause (inherits F2)",
     "the 'current' clause excludes a span re-entered on a thread where it is already entered (property text); the model and the "
@@ -228,7 +234,8 @@ class Gen:
             return
         # (not in chaos mode: after a mis-routed release try_close may find no span, and then it panics only when the
         #  thread is not already panicking — the one place where a drop during unwinding differs from a plain drop)
-        self.emit("pdrop" if self.mode != "chaos" and self.r.random() < 0.15 else "drop", t, h)
+        x = self.r.random()
+        self.emit(("pdrop" if x < 0.12 else "fdrop") if self.mode != "chaos" and x < 0.2 else "drop", t, h)
         del self.handles[h]
 
     def op_enter(self):
@@ -965,7 +972,7 @@ class Oracle:
                     s.deferred = False
                     # Clear for DataInner runs here, on this thread, outside any get_default closure
                     self.release_parent(k, q, t, False, expect)
-        elif name in ("drop", "pdrop"):
+        elif name in ("drop", "pdrop", "fdrop"):
             h = op[2]
             if h in self.handles:
                 q = self.handles.pop(h)
@@ -1387,7 +1394,7 @@ def run_common(ctx, prop, rep, proof_targets):
         rep.tie("build:h_registry", False, vlib.last_error(log))
         return rep
     binpath = paths["h_registry"]
-    n = 700 if not ctx.thorough() else 5000
+    n = 640 if not ctx.thorough() else 5000
     cases = load_corpus(prop) + gen_cases(ctx, n)
     rep.count("cases:corpus", sum(1 for c in cases if c["mode"] == "corpus"))
     impl, errs = run_impl(ctx, binpath, cases)
